@@ -103,9 +103,9 @@ theorem moistAdiabatic_act (hg : g.Valid) (aux : Diag N) :
 
 theorem nodalCosLatGradQ_act (hl : OpsLaws p.ops) (qModal : List M) :
     MoistPrimitiveEquations.nodalCosLatGradQ (actEq g p) qModal
-      = Col.smul g.l⁻¹ (MoistPrimitiveEquations.nodalCosLatGradQ p qModal) := by
+      = Col.smul g.wIL (MoistPrimitiveEquations.nodalCosLatGradQ p qModal) := by
   unfold MoistPrimitiveEquations.nodalCosLatGradQ
-  refine map_scaled_fun _ _ g.l⁻¹ (fun qm => ?_) qModal
+  refine map_scaled_fun _ _ g.wIL (fun qm => ?_) qModal
   have := cosLatGrad_act (g := g) hl false 1 qm
   rw [one_smul, mul_one] at this
   show ((actOps g p.ops).toNodal ((actOps g p.ops).cosLatGrad false qm).1,
@@ -141,13 +141,13 @@ theorem divergenceTendencyDueToHumidity_act (hg : g.Valid) (hl : OpsLaws p.ops) 
       have hsec : (actEq g p).ops.sec2Lat = p.ops.sec2Lat := rfl
       have htm : (actEq g p).ops.toModal = p.ops.toModal := rfl
       have hG : (actDiag g aux).cosLatGradLogSp
-          = (g.l⁻¹ • aux.cosLatGradLogSp.1, g.l⁻¹ • aux.cosLatGradLogSp.2) := rfl
+          = (g.wIL • aux.cosLatGradLogSp.1, g.wIL • aux.cosLatGradLogSp.2) := rfl
       have hT : (actDiag g aux).temperatureVariation = Col.smul g.θ aux.temperatureVariation := rfl
       rw [hlap, hR, hsec, htm, hG, hT]
       rw [zipWith_smul_right_rw (fun (qq tr : N) => qq * p.ops.toNodal (p.ops.laplacian s.logSurfacePressure)
             * tr * constN (p.phys.Rvapor - p.phys.R)) g.θ (g.wF * g.wF) (fun u v => by pw hg)]
       rw [zipWith_smul_rw (fun (tr : N) (gq : N × N) => tr * constN (p.phys.Rvapor - p.phys.R) * p.ops.sec2Lat
-            * (gq.1 * aux.cosLatGradLogSp.1 + gq.2 * aux.cosLatGradLogSp.2)) g.θ g.l⁻¹ (g.wF * g.wF)
+            * (gq.1 * aux.cosLatGradLogSp.1 + gq.2 * aux.cosLatGradLogSp.2)) g.θ g.wIL (g.wF * g.wF)
           (fun u v => by pw hg)]
       rw [add_smul_col, add_smul_col]
       rw [zipWith_smul_right_rw (fun (qq t : N) => (p.phys.Rvapor / p.phys.R - 1) • (qq * t)) g.θ g.θ
@@ -179,10 +179,10 @@ theorem vorticityTendencyDueToHumidity_act (hg : g.Valid) (hl : OpsLaws p.ops) (
     have hsec : (actEq g p).ops.sec2Lat = p.ops.sec2Lat := rfl
     have htm : (actEq g p).ops.toModal = p.ops.toModal := rfl
     have hG : (actDiag g aux).cosLatGradLogSp
-        = (g.l⁻¹ • aux.cosLatGradLogSp.1, g.l⁻¹ • aux.cosLatGradLogSp.2) := rfl
+        = (g.wIL • aux.cosLatGradLogSp.1, g.wIL • aux.cosLatGradLogSp.2) := rfl
     rw [hR, hsec, htm, hG]
     rw [zipWith_smul_rw (fun (tr : N) (gq : N × N) => tr * constN (p.phys.Rvapor - p.phys.R) * p.ops.sec2Lat
-          * (aux.cosLatGradLogSp.1 * gq.2 - aux.cosLatGradLogSp.2 * gq.1)) g.θ g.l⁻¹ (g.wF * g.wF)
+          * (aux.cosLatGradLogSp.1 * gq.2 - aux.cosLatGradLogSp.2 * gq.1)) g.θ g.wIL (g.wF * g.wF)
         (fun u v => by pw hg)]
     rw [map_smul_rw p.ops.toModal (g.wF * g.wF) (g.wF * g.wF) (fun u => hl.toModal_smul _ _)]
 
